@@ -356,7 +356,10 @@ def run_sys_job(ck, binary, job, tag, inject=None, timeout=60):
         # the whole process group was killed by us: before the start marker the fault hit the runtime / set-up
         # (discarded by the callers as a misfire), after it the writers hung without the watchdog firing
         counts["_timeout"] = True
-        ev = [e for e in ev if e["ev"] != "exit"] + [{"ev": "exit", "st": "hang" if start else "killed"}]
+        if start:
+            # the worker's own watchdog decides about hangs; an outer timeout after the start marker is the machine
+            raise vkit.Infra("worker %s exceeded %d s under strace after its start marker (overloaded machine?)" % (tag, timeout))
+        ev = [e for e in ev if e["ev"] != "exit"] + [{"ev": "exit", "st": "killed"}]
         if not start:
             counts["_injected"] = [dict(x, after_start=False) for x in counts.get("_injected", [])] or [{"call": "?", "on_tree": False, "after_start": False}]
     stderr_tail = p.stderr[-1500:] if p.stderr else ""
